@@ -154,7 +154,7 @@ def _build_gm2calc_locked(repo, srcs, cdir, exe):
         if r.returncode != 0:
             raise NativeError('compile %s failed:\n%s' % (c, r.stderr[-2000:]))
         return o
-    with concurrent.futures.ThreadPoolExecutor(max_workers=12) as ex:
+    with concurrent.futures.ThreadPoolExecutor(max_workers=int(os.environ.get("GM2V_BUILD_JOBS", "8"))) as ex:
         objs = list(ex.map(comp, srcs))
     r = subprocess.run(['g++'] + objs + ['-o', exe + '.tmp'], capture_output=True, text=True)
     if r.returncode != 0:
